@@ -183,10 +183,66 @@ func genRect(r *rand.Rand, paths Paths) [4]int64 {
 var rectApis = []string{"RectClipPaths64", "RectClipPath64", "RectClip64.Execute"}
 var rectLineApis = []string{"RectClipLinesPaths64", "RectClipLinesPath64", "RectClipLines64.Execute"}
 
+// cornerPaths: polygons whose edges pass exactly through corners of the rectangle (touching it from outside or
+// cutting across it), with the other vertices in the corner regions, on the side lines or anywhere: the
+// situations in which RectClip64 has to decide which corners of the rectangle belong to the result
+func cornerPaths(r *rand.Rand, rc [4]int64) Paths {
+	corners := []Pt{{rc[0], rc[1]}, {rc[2], rc[1]}, {rc[2], rc[3]}, {rc[0], rc[3]}}
+	w, h := rc[2]-rc[0], rc[3]-rc[1]
+	anyPt := func() Pt {
+		switch r.Intn(4) {
+		case 0: // on a side line
+			if r.Intn(2) == 0 {
+				return Pt{[]int64{rc[0], rc[2]}[r.Intn(2)], rc[1] - h + r.Int63n(3*h+1)}
+			}
+			return Pt{rc[0] - w + r.Int63n(3*w+1), []int64{rc[1], rc[3]}[r.Intn(2)]}
+		case 1: // a corner itself
+			return corners[r.Intn(4)]
+		}
+		return Pt{rc[0] - w + r.Int63n(3*w+1), rc[1] - h + r.Int63n(3*h+1)}
+	}
+	np := 1 + r.Intn(2)
+	out := make(Paths, 0, np)
+	for k := 0; k < np; k++ {
+		var q Path
+		nseg := 1 + r.Intn(3)
+		for j := 0; j < nseg; j++ {
+			c := corners[r.Intn(4)]
+			d := Pt{int64(r.Intn(9) - 4), int64(r.Intn(9) - 4)}
+			if d == (Pt{}) {
+				d = Pt{1, -2}
+			}
+			s1, s2 := int64(1+r.Intn(12)), int64(1+r.Intn(12))
+			q = append(q, Pt{c[0] + s1*d[0], c[1] + s1*d[1]}, Pt{c[0] - s2*d[0], c[1] - s2*d[1]})
+			if r.Intn(2) == 0 {
+				q = append(q, anyPt())
+			}
+		}
+		for len(q) < 3 {
+			q = append(q, anyPt())
+		}
+		if r.Intn(2) == 0 {
+			j := r.Intn(len(q))
+			q = append(append(Path{}, q[j:]...), q[:j]...)
+		}
+		if r.Intn(2) == 0 {
+			rev(q)
+		}
+		out = append(out, q)
+	}
+	return out
+}
+
 func driveRect(r *rand.Rand, w *writer, n int) {
 	for i := 0; i < n; i++ {
 		paths := genClosedSet(r, r.Intn(nClosedFams))
-		e := &RectEv{Ev: "RectClip", Chk: chkFor("C06"), Api: rectApis[r.Intn(3)], Rect: genRect(r, paths), Paths: paths}
+		rc := genRect(r, paths)
+		if r.Intn(4) == 0 {
+			x0, y0 := int64(r.Intn(40)-20), int64(r.Intn(40)-20)
+			rc = [4]int64{x0, y0, x0 + 8 + int64(r.Intn(40)), y0 + 8 + int64(r.Intn(40))}
+			paths = cornerPaths(r, rc)
+		}
+		e := &RectEv{Ev: "RectClip", Chk: chkFor("C06"), Api: rectApis[r.Intn(3)], Rect: rc, Paths: paths}
 		execRect(r, e)
 		w.emit(e)
 	}
